@@ -29,6 +29,9 @@ def branch_succ(cfg, nid):
   if n.kind not in ("if", "while"):
     raise AnalysisError("branch_succ: node is not a test")
   norm = set(cfg.normal_succ(nid))
+  if n.kind == "if" and nid in getattr(cfg, "if_true", {}):
+    t = set(cfg.if_true[nid]) & norm
+    return t, norm - t
   tfirst = first_stmt(n.stmt.body)
   t = {m for m in norm if cfg.nodes[m].stmt is tfirst}
   f = norm - t
@@ -229,6 +232,8 @@ def stmts_in(stmts, types, into_loops=True):
   """Statements of the given types anywhere under `stmts` (not inside nested defs)."""
   out = []
   for s in stmts:
+    if isinstance(s, (ast.FunctionDef, ast.AsyncFunctionDef, ast.ClassDef)):
+      continue          # a nested definition's body does not run here
     for n in walk_no_nested(s):
       if isinstance(n, types):
         out.append(n)
@@ -255,9 +260,10 @@ MUTATING = ("pop", "popitem", "clear", "update", "setdefault", "add", "discard",
             "append", "extend", "insert", "__setitem__", "__delitem__", "sort", "reverse")
 
 
-def attr_sites(fi, attr):
+def attr_sites(fi, attr, aliases=()):
   """
-  Every syntactic use of `<expr>.<attr>` in function fi, classified:
+  Every syntactic use of `<expr>.<attr>` (or of a local alias of it, see obj_sites) in function
+  fi, classified:
     ("rebind", node)            target of an assignment / augmented assignment / del
     ("call", method, callnode)  <expr>.<attr>.method(...)
     ("store-item", node)        <expr>.<attr>[k] = v / del <expr>.<attr>[k] / <expr>.<attr>[k] += v
@@ -272,9 +278,15 @@ def attr_sites(fi, attr):
   out = []
   for s in fi.node.body:
     for n in walk_no_nested(s, into_lambda=True):
-      if not (isinstance(n, ast.Attribute) and n.attr == attr):
+      if not ((isinstance(n, ast.Attribute) and n.attr == attr) or
+              (isinstance(n, ast.Name) and n.id in aliases)):
         continue
       p = parents.get(id(n))
+      if isinstance(n, ast.Name) and isinstance(n.ctx, ast.Store):
+        continue            # the binding of the alias itself
+      if isinstance(n, ast.Attribute) and isinstance(p, ast.Assign) and p.value is n and \
+          len(p.targets) == 1 and isinstance(p.targets[0], ast.Name) and p.targets[0].id in aliases:
+        continue            # `alias = <expr>.<attr>`: the uses of the alias are classified instead
       if isinstance(n.ctx, (ast.Store, ast.Del)):
         out.append(("rebind", n))
         continue
@@ -550,6 +562,11 @@ class _Subst(ast.NodeTransformer):
     self.generic_visit(node)
     return node
 
+  def visit_arg(self, node):
+    if node.arg in self.ren:
+      node.arg = self.ren[node.arg]
+    return node
+
 
 def _simple_arg(e):
   if isinstance(e, (ast.Name, ast.Constant)):
@@ -675,6 +692,8 @@ class Inliner(object):
           stored.add(x.id)
         elif isinstance(x, ast.ExceptHandler) and x.name:
           stored.add(x.name)
+        elif isinstance(x, ast.Lambda):
+          stored |= set(_all_params(x))
     ren, sub, pre = {}, {}, []
     for p in params:
       a = args[p]
@@ -862,3 +881,383 @@ class IFn(Fn):
 def real_loops(stmts, types=(ast.For, ast.While)):
   """Loops of the code under `stmts`, the Inliner's synthetic wrappers excluded."""
   return [s for s in stmts_in(stmts, types) if not getattr(s, "_inl", False)]
+
+
+# ------------------------------------------------------------------------------------------
+# Atoms: boolean-valued expressions compared modulo negation spelling
+_NEG_OPS = {ast.IsNot: ast.Is, ast.NotIn: ast.In, ast.NotEq: ast.Eq}
+
+
+def atom_of(e):
+  """(positive-form text, polarity): `x is not None` -> ("x is None", False); `not a` -> (a, False);
+  other expressions -> (text, True)."""
+  pol = True
+  while isinstance(e, ast.UnaryOp) and isinstance(e.op, ast.Not):
+    e = e.operand
+    pol = not pol
+  if isinstance(e, ast.Compare) and len(e.ops) == 1 and type(e.ops[0]) in _NEG_OPS:
+    e2 = ast.Compare(left=e.left, ops=[_NEG_OPS[type(e.ops[0])]()], comparators=e.comparators)
+    return text(e2), not pol
+  return text(e), pol
+
+
+class Facts(FactReach):
+  """
+  FactReach over *atoms*: any sub-expression of a test whose normalised positive form (locals
+  expanded through `ex`; `is not` / `not in` / `!=` turned into their negations; `X is None` read
+  as `not X`) is one of `atoms` is a tracked fact. Disjunctions split the path (`if a or b:` is
+  entered with a true, or with a false and b true). A fact is dropped where a name occurring in it
+  is rebound, or its attribute is assigned (a constant assigned to a tracked name/attribute sets
+  it; `on_assign(stmt)` may supply facts established by other assignments), and -- for atoms
+  listed in `call_kills` -- at every node evaluating a call.
+  """
+  def __init__(self, cfg, atoms, ex=None, call_kills=(), noreturn=None, on_assign=None):
+    FactReach.__init__(self, cfg, atoms, call_kills=call_kills, noreturn=noreturn)
+    self.ex = ex
+    self.on_assign = on_assign
+    self._names = {}
+    self._canon = {}      # expanded spelling of an atom -> the caller's spelling
+    for a in atoms:
+      try:
+        tree = ast.parse(a, mode="eval").body
+      except SyntaxError:
+        self._names[a] = set()
+        self._canon[a] = a
+        continue
+      self._names[a] = {n.id for n in ast.walk(tree) if isinstance(n, ast.Name)}
+      self._canon[a] = a
+      if ex is not None:
+        self._canon[ex.norm(tree)] = a
+
+  def akey(self, e):
+    e2 = self.ex.expand(e) if self.ex is not None else e
+    k, pol = atom_of(e2)
+    if k in self._canon:
+      return self._canon[k], pol
+    if k.endswith(" is None") and k[:-len(" is None")] in self._canon:
+      return self._canon[k[:-len(" is None")]], not pol
+    return None, True
+
+  def value(self, test, facts):
+    k, pol = self.akey(test)
+    if k is not None:
+      v = facts.get(k)
+      return None if v is None else (v == pol)
+    if isinstance(test, ast.Constant):
+      return bool(test.value)
+    if isinstance(test, ast.UnaryOp) and isinstance(test.op, ast.Not):
+      v = self.value(test.operand, facts)
+      return None if v is None else (not v)
+    if isinstance(test, ast.BoolOp):
+      vs = [self.value(v, facts) for v in test.values]
+      if isinstance(test.op, ast.And):
+        if any(v is False for v in vs):
+          return False
+        return True if all(v is True for v in vs) else None
+      if any(v is True for v in vs):
+        return True
+      return False if all(v is False for v in vs) else None
+    return None
+
+  def cases(self, test, truth):
+    """Fact dicts (a disjunction) describing how `test` can evaluate to `truth`."""
+    k, pol = self.akey(test)
+    if k is not None:
+      return [{k: truth == pol}]
+    if isinstance(test, ast.UnaryOp) and isinstance(test.op, ast.Not):
+      return self.cases(test.operand, not truth)
+    if isinstance(test, ast.BoolOp):
+      conj = (isinstance(test.op, ast.And) and truth) or (isinstance(test.op, ast.Or) and not truth)
+      if conj:
+        out = [{}]
+        for v in test.values:
+          nxt = []
+          for a in out:
+            for b in self.cases(v, truth):
+              if all(a.get(x, y) == y for x, y in b.items()):
+                c = dict(a)
+                c.update(b)
+                nxt.append(c)
+          out = nxt[:64]
+        return out
+      out = []
+      prefix = {}
+      for v in test.values:
+        for b in self.cases(v, truth):
+          if all(prefix.get(x, y) == y for x, y in b.items()):
+            c = dict(prefix)
+            c.update(b)
+            out.append(c)
+        # later operands are only evaluated when this one did not decide
+        pc = self.cases(v, not truth)
+        if len(pc) == 1:
+          prefix.update(pc[0])
+      return out[:64] or [{}]
+    return [{}]
+
+  def learn(self, test, truth):
+    cs = self.cases(test, truth)
+    return cs[0] if len(cs) == 1 else {}
+
+  def _transfer(self, n, facts):
+    s = n.stmt
+    if s is None or n.kind in ("handler", "def"):
+      return facts
+    f = dict(facts)
+    if n.kind in ("stmt", "for", "with"):
+      bound = set(stmt_defs(s))
+      for k in list(f):
+        if self._names.get(k, set()) & bound:
+          f.pop(k, None)
+      tg = s.targets if isinstance(s, ast.Assign) else \
+          ([s.target] if isinstance(s, (ast.AugAssign, ast.AnnAssign)) else [])
+      for t in tg:
+        for el in (t.elts if isinstance(t, (ast.Tuple, ast.List)) else [t]):
+          k = key_of(el)
+          if k is not None and k in self.tracked:
+            f.pop(k, None)
+            if isinstance(s, ast.Assign) and isinstance(s.value, ast.Constant) and el is t:
+              f[k] = bool(s.value.value)
+      if self.on_assign is not None and isinstance(s, (ast.Assign, ast.AugAssign, ast.AnnAssign)):
+        f.update({k: v for k, v in (self.on_assign(s) or {}).items() if k in self.tracked})
+    if self.call_kills and any(True for _ in calls_in(n.exprs)):
+      for k in self.call_kills:
+        f.pop(k, None)
+    return f
+
+  def run(self, starts, stop=()):
+    cfg = self.cfg
+    stop = set(stop)
+    seen = set()
+    out = {}
+    work = [(nid, frozenset((k, v) for k, v in f.items() if k in self.tracked))
+            for (nid, f) in starts]
+    while work:
+      st = work.pop()
+      if st in seen:
+        continue
+      seen.add(st)
+      nid, ff = st
+      out.setdefault(nid, []).append(dict(ff))
+      if nid in stop:
+        continue
+      n = cfg.nodes[nid]
+      f = self._transfer(n, dict(ff))
+      if self.noreturn is not None and n.kind == "stmt" and self.noreturn(n):
+        self.noreturn_seen.add(nid)
+        for m in cfg.succ[nid]:
+          if (nid, m) in cfg.exc_edges:
+            work.append((m, frozenset(f.items())))
+        continue
+      if n.kind in ("if", "while") and not isinstance(n.stmt.test, ast.Constant):
+        t, fl = branch_succ(cfg, nid)
+        v = self.value(n.stmt.test, f)
+        nxt = []
+        for (truth, dests) in ((True, t), (False, fl)):
+          if v is (not truth):
+            continue
+          for c in self.cases(n.stmt.test, truth):
+            if any(f.get(x, y) != y for x, y in c.items()):
+              continue            # contradicts what is known on this path
+            g = dict(f)
+            g.update(c)
+            nxt += [(m, g) for m in dests]
+        for m in cfg.succ[nid] - t - fl:
+          nxt.append((m, f))
+      else:
+        nxt = [(m, f) for m in cfg.succ[nid]]
+      for (m, g) in nxt:
+        work.append((m, frozenset(g.items())))
+    return out
+
+
+# ------------------------------------------------------------------------------------------
+class Owners(object):
+  """
+  Who a piece of code *belongs to* when it was moved into a helper: a function that is not one of
+  the rule's named owners is attributed to the functions calling it (by name, anywhere in the
+  repository), transitively; it stays its own owner when it has no callers, its name is also used
+  as a value (callback), or several functions share the name.
+  """
+  def __init__(self, world):
+    self.w = world
+    self.calls = {}       # callee name -> set(caller qualname)
+    self.values = set()   # names used other than as the callee of a call
+    self.defs = {}        # name -> [FuncInfo]
+    for fi in world.repo.all_functions():
+      self.defs.setdefault(fi.name, []).append(fi)
+    names = set(self.defs)
+    for fi in world.repo.all_functions():
+      callee_nodes = set()
+      for s in fi.node.body:
+        for x in walk_no_nested(s, into_lambda=True):
+          if isinstance(x, ast.Call):
+            f = x.func
+            nm = f.attr if isinstance(f, ast.Attribute) else (f.id if isinstance(f, ast.Name) else None)
+            if nm in names:
+              self.calls.setdefault(nm, set()).add(fi.qualname)
+              callee_nodes.add(id(f))
+      for s in fi.node.body:
+        for x in walk_no_nested(s, into_lambda=True):
+          if id(x) in callee_nodes:
+            continue
+          if isinstance(x, ast.Attribute) and x.attr in names and isinstance(x.ctx, ast.Load):
+            self.values.add(x.attr)
+          elif isinstance(x, ast.Name) and x.id in names and isinstance(x.ctx, ast.Load):
+            self.values.add(x.id)
+
+  def of(self, fi, named, _depth=0, _seen=None):
+    """Set of qualnames the code of fi is attributed to; `named`: qualnames that own themselves."""
+    _seen = _seen if _seen is not None else set()
+    if fi.qualname in named or fi.qualname in _seen or _depth > 3:
+      return {fi.qualname}
+    _seen.add(fi.qualname)
+    if fi.parent is not None:          # closure: runs on behalf of the enclosing function
+      return self.of(fi.parent, named, _depth + 1, _seen)
+    callers = self.calls.get(fi.name, set()) - {fi.qualname}
+    if not callers or fi.name in self.values or len(self.defs.get(fi.name, [])) != 1 or \
+        (fi.name.startswith("__") and fi.name.endswith("__")):
+      return {fi.qualname}
+    out = set()
+    for q in callers:
+      c = self.w.repo.funcs.get(q)
+      out |= self.of(c, named, _depth + 1, _seen) if c is not None else {q}
+    return out
+
+
+# ------------------------------------------------------------------------------------------
+def obj_sites(fi, attr):
+  """attr_sites, following local aliases: `m = self.<attr>` (m bound once) makes every use of `m`
+  a use of the attribute instead of an escape."""
+  ex = Expander(fi.node)
+  aliases = set()
+  for nm, v in ex.vals.items():
+    if isinstance(v, ast.Attribute) and v.attr == attr:
+      aliases.add(nm)
+  if not aliases:
+    return attr_sites(fi, attr)
+  return attr_sites(fi, attr, aliases=aliases)
+
+
+# ------------------------------------------------------------------------------------------
+# Role-bearing functions of the scheduler / action log that the C03/C06/C18/C29 rules anchor on by
+# name: never dissolved by the Inliner (everything else small and local is).
+KEEP_A = {
+  "_recompute_step", "_update_loop", "_recompute", "_recompute_one_cell", "_use_node",
+  "_make_sorted_work_items", "_bring_all_up_to_date", "_bring_mlookups_up_to_date",
+  "_get_undo_checkpoint", "_undo_to_checkpoint", "_apply_one_user_action", "apply_user_actions",
+  "apply_doc_action", "_do_doc_action", "_do_extra_doc_action", "prevent_recalc", "_pre_update",
+  "_post_update", "_flush_changes", "get_formula_value", "get_formula_error", "action_from_repr",
+  "get_action_repr", "encode_objects", "decode_objects", "convert_recursive_in_action",
+  "convert_recursive_helper", "convert_action_values", "invalidate_records", "invalidate_column",
+  "invalidate_deps", "add_records", "load_table", "rebuild_usercode", "remove",
+  "apply_auto_removes", "ApplyUndoActions", "ApplyDocActions", "_requesting", "set_requirer",
+  "raw_get", "get_cell_value", "delete_column", "assert_schema_consistent", "update_current_time",
+  "use_current_time", "fetch_table", "fetch_meta_tables", "find_col_from_values", "autocomplete",
+  "_maybe_update_trigger_dependencies", "reset_dependencies", "remove_node_if_unused",
+  "flush_calc_changes", "check_sanity", "BulkUpdateRecord",
+}
+
+
+def inliner(w):
+  """The world's shared Inliner for the group-A rules."""
+  inl = getattr(w, "_inliner_A", None)
+  if inl is None:
+    inl = w._inliner_A = Inliner(w, keep=KEEP_A)
+  return inl
+
+
+def reaching_defs(cfg, du, nid, name):
+  """Ids of the nodes whose binding of `name` may be the one seen on entry to node nid."""
+  defs = du.defs.get(name, set())
+  out, seen, work = set(), set(), list(cfg.pred[nid])
+  while work:
+    x = work.pop()
+    if x in seen:
+      continue
+    seen.add(x)
+    if x in defs:
+      out.add(x)
+      continue
+    work.extend(cfg.pred[x])
+  return out
+
+
+def value_at(fn, cfg, du, nid, e, depth=0):
+  """Expression `e` evaluated at node nid with locals resolved: a bare name bound several times is
+  followed to its single reaching definition (`ret = E; return ret` in each branch), everything
+  else goes through the function's Expander."""
+  ex = expander(fn)
+  while isinstance(e, ast.Name) and depth < 6 and e.id not in ex.vals:
+    rd = reaching_defs(cfg, du, nid, e.id)
+    if len(rd) != 1:
+      break
+    d = cfg.nodes[next(iter(rd))]
+    s = d.stmt
+    if not (d.kind == "stmt" and isinstance(s, ast.Assign) and len(s.targets) == 1 and
+            isinstance(s.targets[0], ast.Name)):
+      break
+    e, nid, depth = s.value, d.id, depth + 1
+  return ex.expand(e)
+
+
+def returns_of(fn, cfg=None):
+  """[(cfg node, Return stmt, resolved value expr or None)] for every return of the function."""
+  from ..dataflow import DefUse
+  cfg = cfg or fn.cfg
+  du = DefUse(fn, cfg)
+  out = []
+  for n in cfg.nodes:
+    if n.kind == "return":
+      v = n.stmt.value
+      out.append((n, n.stmt, value_at(fn, cfg, du, n.id, v) if v is not None else None))
+  return out
+
+
+def followed(inl, fi, owners):
+  """When code of helper fi is attributed to `owners`, the position-sensitive rules look at the
+  owners' inlined bodies: make sure the helper really was dissolved there (no call of it is left).
+  Raises AnalysisError otherwise (the helper is too large / too dynamic to follow)."""
+  for q in owners:
+    if q == fi.qualname:
+      continue
+    f = inl.fn(q)
+    for c in calls_in(f.node.body, into_lambda=True):
+      nm = c.func.attr if isinstance(c.func, ast.Attribute) else \
+          (c.func.id if isinstance(c.func, ast.Name) else None)
+      if nm == fi.name:
+        raise AnalysisError("%s: its effect belongs to %s, but the call cannot be followed "
+                            "(helper too large or not a plain local call)" % (fi.qualname, q))
+  return True
+
+
+def deref_at(fn, cfg, du, nid, e, depth=0):
+  """Follow a bare name at node nid to the expression of its (single reaching) binding, without
+  expanding anything inside that expression. Returns (expr, node id where it is evaluated)."""
+  ex = expander(fn)
+  while isinstance(e, ast.Name) and depth < 6:
+    rd = reaching_defs(cfg, du, nid, e.id)
+    if len(rd) != 1:
+      break
+    d = cfg.nodes[next(iter(rd))]
+    s = d.stmt
+    if not (d.kind == "stmt" and isinstance(s, ast.Assign) and len(s.targets) == 1 and
+            isinstance(s.targets[0], ast.Name)):
+      break
+    e, nid, depth = s.value, d.id, depth + 1
+  return e, nid
+
+
+def innermost_loop(fnode, stmt):
+  """Innermost real (non-synthetic) loop lexically enclosing `stmt`, else None."""
+  from ..astutil import enclosing_chain
+  loops = [x for (x, fld) in enclosing_chain(fnode, stmt)
+           if isinstance(x, (ast.For, ast.While)) and not getattr(x, "_inl", False) and fld == "body"]
+  return loops[-1] if loops else None
+
+
+def enclosing_loops(fnode, stmt):
+  """Real (non-synthetic) loops whose body lexically encloses `stmt`, outermost first."""
+  from ..astutil import enclosing_chain
+  return [x for (x, fld) in enclosing_chain(fnode, stmt)
+          if isinstance(x, (ast.For, ast.While)) and not getattr(x, "_inl", False) and fld == "body"]
